@@ -89,6 +89,13 @@ def one_config(job):
             n = kw["slices_x"] * kw["slices_y"]
             # not always a multiple of the slice count: low-delay slices then differ in size
             kw["picture_bytes"] = n * rng.randint(8, 64) + (rng.randrange(0, n) if rng.random() < 0.7 else 0)
+        if rng.random() < 0.06:
+            # custom quantisation matrix entries around the width of the qindex fields (7 / 8 bits)
+            qm = common.flat_quant_matrix(kw["dwt_depth"], kw["dwt_depth_ho"], rng, 3)
+            lv = rng.choice(sorted(qm))
+            o = rng.choice(sorted(qm[lv]))
+            qm[lv][o] = rng.choice([120, 121, 127, 128, 247, 248, 249, 250, 255, 256, 300])
+            kw["quantization_matrix"] = qm
         if not kw["lossless"] and not large and rng.random() < 0.12:
             # the bottom of the allowed range: slices of 1..4 bytes (low delay: 0..3-bit length fields; high quality:
             # barely room for the length bytes), evenly and unevenly divided
